@@ -1,6 +1,131 @@
 -------------------------------- MODULE JC05 --------------------------------
-(* C05 — contract of the recorded events of this property (stub).           *)
+(* C05 — shifts and bit queries agree with the binary expansion, for every  *)
+(* shift amount.                                                            *)
+(*                                                                          *)
+(* Event classes (field "op"):                                              *)
+(*  "shl" / "shr"   w (width in bits), x (value; two's-complement pattern   *)
+(*                  when sg = 1), s (shift amount, a natural), m = how this *)
+(*                  form reports s >= w, from its doc comment:              *)
+(*                    "panic"  documented panic                             *)
+(*                    "none"   CtOption / Option is none                    *)
+(*                    "flag"   boxed (value, Choice): zero and ov = 1       *)
+(*                    "zero"   wrapping forms: zero (sign fill for the      *)
+(*                             arithmetic right shift of a negative Int)    *)
+(*                    "mask"   Limb's num_traits::Wrapping{Shl,Shr}: the    *)
+(*                             amount is reduced mod w (num-traits' rule)   *)
+(*                  outputs r [, ov] [, rp = result precision, boxed]       *)
+(*  "shlw" / "shrw" double-width (lo, hi), each w bits -> (rlo, rhi);       *)
+(*                  none iff s >= 2w                                        *)
+(*  "bits" "lz" "tz" "to" "prec" "prec8"   x, w -> r (small integer)        *)
+(*  "bit"           x, w, i -> r in {0,1};  0 for i >= w (documented)       *)
+(*  "setbit"        x, w, i, v -> r; i >= w is outside the documentation:   *)
+(*                  a panic or the unchanged value                          *)
+(*  "and" "or" "xor" a, b -> r;  "andl" a, l (limb) -> r;  "not" a, w -> r  *)
+(*                  (aw: left precision, only for mixed boxed precisions)   *)
+(* Every operator of this module carries the prefix C05 (all judge modules  *)
+(* are extended into one ApiTrace module).                                  *)
 EXTENDS BigNat
 
-JudgeC05(e, rg) == FALSE
+C05Has(e, f) == f \in DOMAIN e
+
+(* shift amount as a TLC integer, capped at cap (cap < 2^31) *)
+C05Cap(s, cap) == IF Ge(s, FromInt(cap)) THEN cap ELSE ToInt(s)
+
+C05Ovf(e) == Ge(e.s, FromInt(e.w))
+
+(* floor(v / 2^t) for the signed value v denoted by pattern x at width w,   *)
+(* re-encoded at width w; 0 <= t <= w.  For v = -m: -ceil(m / 2^t).         *)
+C05Asr(x, w, t) ==
+  LET v == SVal(x, w)
+  IN IF v.neg THEN SEnc(SMk(TRUE, Shr(Add(v.mag, Max2k(t)), t)), w)
+     ELSE Shr(x, t)
+
+(* the mathematical result truncated to the width, shift amount t <= w *)
+C05ShVal(e, t) ==
+  IF e.op = "shl" THEN Mod2k(Shl(e.x, t), e.w)
+  ELSE IF e.sg = 1 THEN C05Asr(e.x, e.w, t)
+  ELSE Shr(e.x, t)
+
+(* what a wrapping form returns for any s: t = min(s, w) gives zero / the sign fill *)
+C05Exact(e)  == C05ShVal(e, C05Cap(e.s, e.w))
+
+C05OkR(e, r) == /\ e.k = "ok"
+                /\ e.r = r
+                /\ C05Has(e, "rp") => e.rp = e.w
+
+JudgeC05Shift(e) ==
+  /\ Fits(e.x, e.w)
+  /\ CASE e.m = "panic" -> IF C05Ovf(e) THEN e.k = "panic" ELSE C05OkR(e, C05Exact(e))
+       [] e.m = "none"  -> IF C05Ovf(e) THEN e.k = "none"  ELSE C05OkR(e, C05Exact(e))
+       [] e.m = "flag"  -> /\ C05Has(e, "ov")
+                           /\ IF C05Ovf(e) THEN C05OkR(e, Zero) /\ e.ov = 1
+                              ELSE C05OkR(e, C05Exact(e)) /\ e.ov = 0
+       [] e.m = "zero"  -> C05OkR(e, C05Exact(e))
+       [] e.m = "mask"  -> C05OkR(e, C05ShVal(e, ToInt(Mod(e.s, FromInt(e.w)))))
+       [] OTHER -> FALSE
+
+JudgeC05Wide(e) ==
+  LET X  == Add(e.lo, Shl(e.hi, e.w))
+      W2 == 2 * e.w
+  IN /\ Fits(e.lo, e.w) /\ Fits(e.hi, e.w)
+     /\ IF Ge(e.s, FromInt(W2)) THEN e.k = "none"
+        ELSE LET t == ToInt(e.s)
+                 R == IF e.op = "shlw" THEN Mod2k(Shl(X, t), W2) ELSE Shr(X, t)
+             IN /\ e.k = "ok"
+                /\ e.rlo = Mod2k(R, e.w)
+                /\ e.rhi = Shr(R, e.w)
+
+(* scans *)
+C05Tz(x, w) == IF x = Zero THEN w ELSE TrailingZeros(x)
+
+JudgeC05Scan(e) ==
+  /\ e.k = "ok"
+  /\ Fits(e.x, e.w)
+  /\ e.r = CASE e.op = "bits"  -> BitLen(e.x)
+             [] e.op = "lz"    -> e.w - BitLen(e.x)
+             [] e.op = "tz"    -> C05Tz(e.x, e.w)
+             [] e.op = "to"    -> C05Tz(NotW(e.x, e.w), e.w)
+             [] e.op = "prec"  -> e.w
+             [] e.op = "prec8" -> e.w \div 8
+
+JudgeC05Bit(e) ==
+  /\ e.k = "ok"
+  /\ e.r = IF Ge(e.i, FromInt(e.w)) THEN 0 ELSE Bit(e.x, ToInt(e.i))
+
+C05SetBit(x, i, v) ==
+  IF Bit(x, i) = v THEN x
+  ELSE IF v = 1 THEN Add(x, Pow2(i)) ELSE Sub(x, Pow2(i))
+
+JudgeC05SetBit(e) ==
+  IF Ge(e.i, FromInt(e.w))
+    THEN e.k = "panic" \/ C05OkR(e, e.x)          \* index out of range: the documentation is silent
+    ELSE C05OkR(e, C05SetBit(e.x, ToInt(e.i), e.v))
+
+(* limb l repeated over n limbs *)
+RECURSIVE C05Rep(_, _)
+C05Rep(l, n) == IF n = 0 THEN Zero ELSE Add(l, Shl(C05Rep(l, n - 1), 64))
+
+(* Boxed operands of different precisions ("aw" = precision of the left operand is    *)
+(* logged only then): the documentation does not say which precision the result has, *)
+(* so the exact value, the value truncated to the left operand, or a panic pass.      *)
+C05Bw(e, v) ==
+  IF C05Has(e, "aw") THEN e.k = "panic" \/ C05OkR(e, v) \/ C05OkR(e, Mod2k(v, e.aw))
+  ELSE C05OkR(e, v)
+
+JudgeC05Bitwise(e) ==
+  /\ Fits(e.a, e.w)
+  /\ CASE e.op = "and"  -> Fits(e.b, e.w) /\ C05Bw(e, And(e.a, e.b))
+       [] e.op = "or"   -> Fits(e.b, e.w) /\ C05Bw(e, Or(e.a, e.b))
+       [] e.op = "xor"  -> Fits(e.b, e.w) /\ C05Bw(e, Xor(e.a, e.b))
+       [] e.op = "andl" -> Fits(e.l, 64) /\ C05OkR(e, And(e.a, C05Rep(e.l, e.w \div 64)))
+       [] e.op = "not"  -> C05OkR(e, NotW(e.a, e.w))
+
+JudgeC05(e, rg) ==
+  CASE e.op \in {"shl", "shr"}   -> JudgeC05Shift(e)
+    [] e.op \in {"shlw", "shrw"} -> JudgeC05Wide(e)
+    [] e.op \in {"bits", "lz", "tz", "to", "prec", "prec8"} -> JudgeC05Scan(e)
+    [] e.op = "bit"              -> JudgeC05Bit(e)
+    [] e.op = "setbit"           -> JudgeC05SetBit(e)
+    [] e.op \in {"and", "or", "xor", "andl", "not"} -> JudgeC05Bitwise(e)
+    [] OTHER -> FALSE
 =============================================================================
